@@ -164,8 +164,4 @@ GenSpec == XzInit /\ bad = FALSE /\ [][GenNextAll]_<<xzvars, bad>>
 
 DeviantsRefused == ~bad
 
-\* Non-vacuity witnesses: each must be VIOLATED (a complete two-chunk file
-\* with data is reachable; a file with stream padding is reachable).
-NeverDoneWithData == ~(phase = "done" /\ utotal > 0)
-
 =============================================================================
